@@ -62,7 +62,7 @@ def step (t : List String) : String :=
   | "namekeys" :: nm => match parseAll? parseInt? nm with
       | some l =>
           " ".intercalate ((pairsOf l).map fun p =>
-            let k := nameKey p.1 p.2; s!"{k.1} {k.2.1} {k.2.2.1} {k.2.2.2}")
+            let k := nameKey p.1 p.2; s!"{k.1} {k.2.1} {k.2.2.1} {k.2.2.2} {nameWords k.1}")
       | _ => "bad-op"
   | "group" :: nm => match parseAll? parseInt? nm with
       | some l =>
